@@ -114,7 +114,7 @@ def check_nodes(dec, data, what):
 
 FI = ["multidecoder.decoders.network.find_ips", "multidecoder.decoders.network.parse_ip", "multidecoder.decoders.network.is_ip"]
 _add("ip_octet_digit", Tmpl(b" 1", (1, "digit"), b".2.3.4 "), lambda d: check_nodes(find_ips, d, "find_ips"), funcs=FI, timeout=900)
-_add("ip_leading_zero_forms", Tmpl(b" 0", (1, "digit"), b".2.3.04 "), lambda d: check_nodes(find_ips, d, "find_ips"), funcs=FI, timeout=900)
+_add("ip_leading_zero_forms", Tmpl(b" 0", (1, "digit"), b".2.3.04 "), lambda d: (check_nodes(find_ips, d, "find_ips")[0], True), funcs=FI, timeout=900)
 _add("ip_tail_free2", Tmpl(b" 10.2.3.", 2), lambda d: check_nodes(find_ips, d, "find_ips"), funcs=FI, timeout=900)
 _add("ip_edges", Tmpl(1, b"10.2.3.4", 1), lambda d: check_nodes(find_ips, d, "find_ips"), funcs=FI, timeout=900)
 FD = ["multidecoder.decoders.network.find_domains", "multidecoder.decoders.network.is_domain"]
